@@ -858,10 +858,8 @@ def templ_classes(n, prog, q):
             tainted = set((T, s) for T, U, i, s in hits)
             identity = set((T, s) for T, U, i, s in hits if s is not None and i == "all")
             order, _ = expansions(prog, q)
-            # a tainted definition is expanded and the query goes on looking into its result, or the last
-            # definition expanded names U with exactly U's own parameter names (printed without arguments)
-            for pos, d in enumerate(order):
-                if d in tainted and (pos + 1 < len(order) or d in identity):
-                    out.append("C06-templ-shared-parameter-name")
-                    break
+            # the evaluation expands a tainted definition (even as its last step the result can be that of ANOTHER
+            # instantiation made earlier in the same run: R<char &>::m1 answered with R<int>'s P<int, int &>)
+            if any(d in tainted for d in order):
+                out.append("C06-templ-shared-parameter-name")
     return out
